@@ -183,6 +183,64 @@ def stage_t(chk, bindir, rnd, stats, tier):
     chk.cov["trace_validation"] = {"records": judged, "rejected": len(bad)}
 
 
+def stage_x(chk, bindir, stats, tier):
+    """Literals of another kind than the column that the row-level evaluator accepts (a number written as a string for
+    an int field, a bare number for a string field holding that text): whatever rows the evaluator matches in memory
+    must also be returned from flushed and compacted zones - an equality index keyed by the literal's spelling or kind
+    would rule their zones out.  (Which cross-kind literals the evaluator coerces is its own business: the reference is the
+    answer over the same rows held in memory, where no pruning structure is involved.)"""
+    import shutil as _sh
+    from vlib import query as _q
+    rows = [(1, 5, "42"), (2, -8, "zeta"), (3, 10, "7"), (4, 5, "alpha"), (5, 0, "0"), (6, 123456789012, "42"), (7, -8, "-8"), (8, 77, "x y")]
+    probes = [('n = "5"', {1, 4}), ('n = "-8"', {2, 7}), ('n = "10"', {3}), ('n = "0"', {5}), ('n = "123456789012"', {6}),
+              ("name = 42", {1, 6}), ("name = 7", {3}), ("name = 0", {5}), ("name = -8", {7}), ('n = "99"', set()), ("name = 99", set())]
+    in_memory = {}
+    for layout in ("mem", "l0", "l1"):
+        root = core.WORK / "c08" / f"x-{layout}"
+        if root.exists():
+            _sh.rmtree(root)
+        root.mkdir(parents=True)
+        cfg = {"root": str(root / "db"), "fill_factor": 1000, "event_per_zone": 2, "shards": 1, "k": 2}
+        steps = [{"op": "cmd", "text": 'DEFINE ev FIELDS { k: "int", n: "int", name: "string" }', "tag": ["define"]}]
+        for i, (k, n, name) in enumerate(rows):
+            steps.append({"op": "cmd", "text": f'STORE ev FOR c{k % 3} PAYLOAD {json.dumps({"k": k, "n": n, "name": name})}', "tag": ["store", k]})
+            if layout != "mem" and i in (3, 7):
+                steps.append({"op": "cmd", "text": "FLUSH", "tag": ["flush"]})
+        if layout == "l1":
+            steps.append({"op": "compact", "shard": 0, "tag": ["compact"]})
+        for pi, (w, _exp) in enumerate(probes):
+            steps.append({"op": "cmd", "text": f"QUERY ev RETURN [k] WHERE {w}", "tag": ["x", pi]})
+        rc, obs, err = core.run_vdrive(bindir, {"config": cfg, "out": str(root / "o.ndjson"), "steps": steps}, timeout=120)
+        if rc != 0:
+            chk.violation(f"cross-kind literal stage [{layout}]: engine ended with {rc}: {err[-200:]}", {"layout": layout})
+            continue
+        for o in obs:
+            t = o.get("tag")
+            if not (isinstance(t, list) and t[0] == "x"):
+                continue
+            w, exp = probes[t[1]]
+            stats["cross_kind_probes"] += 1
+            if o.get("outcome") != "response" or o.get("status") != 200:
+                chk.violation(f"QUERY ev WHERE {w} [{layout}]: {(o.get('outcome'), o.get('status'), o.get('message'))}", {"layout": layout, "where": w})
+                continue
+            cols = o.get("columns", [])
+            got = {r[cols.index("k")] for r in (o.get("rows") or [])} if "k" in cols else set()
+            if layout == "mem":
+                in_memory[t[1]] = got
+                if got == exp and exp:
+                    stats["cross_kind_coerced_in_memory"] += 1
+                continue
+            ref = in_memory.get(t[1])
+            if ref is None:
+                continue
+            if got != ref:
+                chk.violation(f"QUERY ev RETURN [k] WHERE {w} [{layout}]: returned {sorted(got)}, the same rows held in memory give {sorted(ref)}"
+                              " - a pruning structure ruled out a zone holding a row the evaluator matches", {"layout": layout, "where": w, "rows": rows})
+            elif ref:
+                stats["cross_kind_ok"] += 1
+        _sh.rmtree(root, ignore_errors=True)
+
+
 def run(tier):
     chk = core.Check(PROP, "model_checking", tier)
     bindir = core.build_harness(("vdrive",))
@@ -220,6 +278,7 @@ def run(tier):
             else:
                 judge(chk, stats, kind, pops_big[: (6 if q else 12)], 2, res, "L0-12zones")
     stage_t(chk, bindir, rnd, stats, tier)
+    stage_x(chk, bindir, stats, tier)
     chk.sample({"population": pops_small[len(pops_small) // 2]["pop"], "one_case": pops_small[len(pops_small) // 2]["cases"][0]})
     chk.cov["states"] = states
     chk.cov["transitions"] = trans
